@@ -51,7 +51,11 @@ structure Proc where
   kinds : List Nat     -- Match(a) = a.kind ∈ kinds
   suffix : Bytes       -- Process(in) = in ++ suffix …
   fails : Bool         -- … or an error
+  replace : Bool       -- … or (a filter, a formatter) suffix alone, whatever came in - possibly nothing at all
 deriving DecidableEq, Repr
+
+/-- what a processor that does not fail hands on -/
+def Proc.apply (p : Proc) (b : Bytes) : Bytes := if p.replace then p.suffix else b ++ p.suffix
 
 inductive Cause where
   | badName        -- "unable to convert … to proto" (illegal name)
@@ -67,7 +71,7 @@ def postProcess : List Proc → Nat → Bytes → Except Cause Bytes
   | [], _, b => .ok b
   | p :: ps, kind, b =>
     if p.kinds.contains kind then
-      if p.fails then .error .postProcess else postProcess ps kind (b ++ p.suffix)
+      if p.fails then .error .postProcess else postProcess ps kind (p.apply b)
     else postProcess ps kind b
 
 def isFileNamed (n : Bytes) (f : RF) : Bool := f.name == some n && f.ip == none
